@@ -6,3 +6,4 @@
 pub mod coqfmt;
 pub mod sim;
 pub mod cmd_limits;
+pub mod ast2coq;
